@@ -33,85 +33,70 @@
 #include <string.h>
 #include <libgen.h>
 
-// Insert the content of "etc_file.file_entry" into "fe" if there is no
-// group specified
-size_t insert_nogroup(econf_file *dest_kf, struct file_entry **fe,
-		      econf_file *ef) {
-  size_t etc_start = 0;
-  if (ef) {
-    while (etc_start < ef->length &&
-	   !strcmp(ef->file_entry[etc_start].group, KEY_FILE_NULL_VALUE)) {
-      (*fe)[etc_start] = cpy_file_entry(dest_kf, ef->file_entry[etc_start]);
-      etc_start++;
-    }
-  }
-  return etc_start;
+static bool same_group(const struct file_entry *a, const struct file_entry *b) {
+  return strcmp(a->group, b->group) == 0;
 }
 
-// Merge contents from existing usr_file groups
+static bool has_key(const econf_file *kf, const struct file_entry *e) {
+  for (size_t i = 0; i < kf->length; i++)
+    if (same_group(&kf->file_entry[i], e) && strcmp(kf->file_entry[i].key, e->key) == 0)
+      return true;
+  return false;
+}
+
+static bool has_group(const econf_file *kf, const struct file_entry *e) {
+  for (size_t i = 0; i < kf->length; i++)
+    if (same_group(&kf->file_entry[i], e))
+      return true;
+  return false;
+}
+
+// Merge the entries of uf (base) and ef (override) into fe which has
+// to provide space for uf->length + ef->length entries.
 // uf: usr_file, ef: etc_file
-size_t merge_existing_groups(econf_file *dest_kf, struct file_entry **fe, econf_file *uf,
-			     econf_file *ef, const size_t etc_start) {
-  bool new_key;
-  size_t merge_length = etc_start, tmp = etc_start, added_keys = etc_start;
-  if (uf && ef) {
-    for (size_t i = 0; i <= uf->length; i++) {
-      // Check if the group has changed in the last iteration
-      if (i == uf->length ||
-	  (i && strcmp(uf->file_entry[i].group, uf->file_entry[i - 1].group))) {
-	for (size_t j = etc_start; j < ef->length; j++) {
-	  // Check for matching groups
-	  if (!strcmp(uf->file_entry[i - 1].group, ef->file_entry[j].group)) {
-	    new_key = true;
-	    for (size_t k = merge_length; k < i + tmp; k++) {
-	      // If an existing key is found in ef take the value from ef
-	      if (!strcmp((*fe)[k].key, ef->file_entry[j].key)) {
-		free((*fe)[k].value);
-		(*fe)[k].value = ef->file_entry[j].value ? strdup(ef->file_entry[j].value) : strdup("");
-		new_key = false;
-		break;
-	      }
-	    }
-	    // If a new key is found for an existing group append it to the group
-	    if (new_key)
-	      (*fe)[i + added_keys++] = cpy_file_entry(dest_kf, ef->file_entry[j]);
-	  }
-	}
-	merge_length = i + added_keys;
-	// Temporary value to reduce amount of iterations in inner for loop
-	tmp = added_keys;
-      }
-      if (i != uf->length)
-	(*fe)[i + added_keys] = cpy_file_entry(dest_kf, uf->file_entry[i]);
-    }
-  }
-  return merge_length;
-}
+size_t merge_entries(econf_file *dest_kf, struct file_entry *fe,
+		     econf_file *uf, econf_file *ef) {
+  size_t n = 0;
+  struct file_entry nogroup = { .group = (char *) KEY_FILE_NULL_VALUE };
 
-// Add entries from etc_file exclusive groups
-size_t add_new_groups(econf_file *dest_kf, struct file_entry **fe,
-		      econf_file *uf, econf_file *ef,
-		      const size_t merge_length) {
-  size_t added_keys = merge_length;
-  bool new_key;
-  if (uf && ef) {
-    for (size_t i = 0; i < ef->length; i++) {
-      if (!strcmp(ef->file_entry[i].group, KEY_FILE_NULL_VALUE))
-	continue;
-      new_key = true;
-      for (size_t j = 0; j < uf->length; j++) {
-	if (!strcmp(uf->file_entry[j].group, ef->file_entry[i].group)) {
-	  new_key = false;
-	  break;
-	}
+  /* Entries without a group which are defined in ef only have to be the
+     first ones if uf has no entries without a group. */
+  if (!has_group(uf, &nogroup))
+    for (size_t j = 0; j < ef->length; j++)
+      if (same_group(&ef->file_entry[j], &nogroup))
+	fe[n++] = cpy_file_entry(dest_kf, ef->file_entry[j]);
+
+  for (size_t i = 0; i < uf->length; i++) {
+    fe[n] = cpy_file_entry(dest_kf, uf->file_entry[i]);
+    /* If the key is defined in ef take the value from ef */
+    for (size_t j = 0; j < ef->length; j++) {
+      if (same_group(&ef->file_entry[j], &uf->file_entry[i]) &&
+	  strcmp(ef->file_entry[j].key, uf->file_entry[i].key) == 0) {
+	free(fe[n].value);
+	fe[n].value = ef->file_entry[j].value ? strdup(ef->file_entry[j].value) : strdup("");
+	break;
       }
-      if (new_key)
-	(*fe)[added_keys++] = cpy_file_entry(dest_kf, ef->file_entry[i]);
     }
-    if (added_keys > 0)
-      *fe = realloc(*fe, (added_keys) * sizeof(struct file_entry));
+    n++;
+
+    /* Last entry of this group in uf: append the new keys of ef */
+    bool last = true;
+    for (size_t k = i + 1; k < uf->length && last; k++)
+      if (same_group(&uf->file_entry[k], &uf->file_entry[i]))
+	last = false;
+    if (last)
+      for (size_t j = 0; j < ef->length; j++)
+	if (same_group(&ef->file_entry[j], &uf->file_entry[i]) &&
+	    !has_key(uf, &ef->file_entry[j]))
+	  fe[n++] = cpy_file_entry(dest_kf, ef->file_entry[j]);
   }
-  return added_keys;
+
+  /* Groups which are defined in ef only */
+  for (size_t j = 0; j < ef->length; j++)
+    if (!same_group(&ef->file_entry[j], &nogroup) && !has_group(uf, &ef->file_entry[j]))
+      fe[n++] = cpy_file_entry(dest_kf, ef->file_entry[j]);
+
+  return n;
 }
 
 // Check if the given directory exists. If so look for config files
